@@ -23,6 +23,20 @@ Load histories (change `none` and the changes that ADD an option -- LOAD_HISTORY
    an option g gave a user value to, while one of its default-marked options has a default that refers to it).  The result is
    the reference of f alone (fresh instance, f', T_new resp. T_new'), and the last load's mismatch records are those of loading
    f alone: nothing an earlier load stored survives a replacing load of the main sdkconfig, whatever was merged in between.
+
+Symbol-valued defaults (trees `symval_*`): a chain B <- D (`default B`) <- C (`default D`) of int options in EVERY definition
+   order (6 trees), and bool / string / hex / float pairs (referent, `default <referent>`) with the referring options first /
+   last; changes: the referent's default literal, the symbol-valued default replaced by a literal.  The reference orders the
+   stored defaults by the references read off the SOURCE tree (ast_refs: dependencies, prompt conditions, default values and
+   conditions, range bounds), united with the library's own `dependencies`, so it does not follow the library when that
+   forgets a kind of reference.
+
+Forced / proposed values (trees `set_<type>_target_{first,last}`, type in string / int / hex / float): T is the target of
+   `set T=v` of a switch F and of `set default T=w` of a switch W.  In these trees (and ints/set_default_source_added) the
+   live instance OBSERVES between the operations: before each edit (= after the load and after every edit but the last) it
+   does nothing / saves the configuration / reads every value (thorough), every combination for <=2 edits, the uniform ones
+   for 3; the reference performs the bare edits on a fresh instance.  Switching a `set` on and off again, with the target
+   evaluated in between, must leave the user value (restored from an unmarked entry, or set later) in force and unmarked.
 """
 
 from __future__ import annotations
@@ -40,12 +54,16 @@ LEVEL = "model_checking"
 RULE = (
     "base trees x single-change menu (default literal, default condition, range added, dependency added, option added, option "
     "removed, referenced option added, prompt removed, prompt condition added, choice default changed / moved to a later member, "
-    "choice member or choice gated by a dependency / prompt condition, set default source added, no change) x files written "
+    "choice member or choice gated by a dependency / prompt condition, set default source added, referent of a symbol-valued default "
+    "changed, symbol-valued default replaced by a literal, default of a `set` / `set default` target changed, no change) x files written "
     "in every configuration reachable by <=2 operations x policies {sdkconfig, kconfig} x every edit sequence of <=2 (quick) / 3 "
     "(thorough) operations after loading; plus, for `no change` and the option-adding changes, load histories on one instance: "
     "first file (new tree, <=1 op; <=2 thorough without a merge) x merge in between {none, one-entry fragment per option of the edit alphabet "
     "(first two, is_main_sdkconfig=False: quick; all, both values of is_main_sdkconfig: thorough), replace=False} x last file "
     "(replacing) x {no edit, every single edit (with a merge: thorough only)}. "
+    "Base trees include a chain of symbol-valued defaults in all 6 definition orders + bool/string/hex/float pairs (referring option first / last), and "
+    "string/int/hex/float targets of `set` + `set default` (target first / last; quick: 6 of the 8 trees); in the set trees every edit sequence is also run with "
+    "an observation before each edit (save; thorough: save or read-all; all combinations for <=2 edits, uniform for 3) against the bare edit sequence on the reference. "
     "states = distinct (tree pair, file, policy, edit history) resp. (tree pair, first file, merge, last file, policy, edit); "
     "distinct_nontrivial = distinct (tree pair, file) in which at least one default-marked entry disagrees with the new tree."
 )
@@ -55,6 +73,9 @@ ASSUMPTIONS = [
     "mismatch records are compared as the set of option / choice names in DefaultValuesArea.changed_defaults / changed_choices",
     "the merge fragment between two replacing loads is a single unmarked assignment of an option of the new tree; a merge AFTER the last replacing load is not explored "
     "(the property speaks about loading a file the tool wrote, not about what a later merge adds)",
+    "saving the configuration or reading values does not change it: the reference of an edit sequence with observations in between is the bare edit sequence",
+    "the order in which stored defaults are compared (options an option refers to first) is read off the source tree: depends on, prompt conditions, default values "
+    "and conditions, range bounds, enclosing menu / if / choice conditions -- `set` / select / imply sources are NOT counted as references of their target",
     "a stored selection that is invisible when the file is loaded is ignored for good: the reference never re-adopts it when a later edit makes the member visible",
 ]
 
@@ -76,6 +97,8 @@ def base_trees() -> Iterator[Tuple[str, Program]]:
     yield rev_tree()
     yield multidef_tree()
     yield strname_tree()
+    yield from symval_trees()
+    yield from set_trees()
     yield ("bools", Program(children=[
         Cfg("A", "bool", prompt="a", defaults=[(L("y"), None)]),
         Cfg("X", "bool", prompt="x", defaults=[(L("y"), S("A"))]),
@@ -115,6 +138,49 @@ def strname_tree() -> Tuple[str, Program]:
         Cfg("W", "string", prompt="w", defaults=[(L('"0x10"'), None)]),
         Cfg("F", "bool", prompt="f", defaults=[(L("y"), Rel("=", S("T"), L('"V"')))]),
     ]))
+
+
+SYMVAL_ORDERS = ["".join(o) for o in itertools.permutations("BDC")]
+
+
+def symval_trees() -> Iterator[Tuple[str, Program]]:
+    # defaults whose VALUE is another option (`default B`), a chain B <- D <- C, in EVERY definition order (= order of the
+    # entries in the file): the stored default of an option has to be compared after the options its default value refers to
+    defs = {
+        "B": lambda: Cfg("B", "int", prompt="b", defaults=[(L("10"), None)]),
+        "D": lambda: Cfg("D", "int", prompt="d", defaults=[(S("B"), None)]),
+        "C": lambda: Cfg("C", "int", prompt="c", defaults=[(S("D"), None)]),
+    }
+    for o in SYMVAL_ORDERS:
+        yield ("symval_" + o, Program(children=[defs[x]() for x in o]))
+    # the same for bool / string / hex / float pairs (referent, option whose default value is the referent), referring options first / last
+    pairs = [
+        Cfg("BB", "bool", prompt="bb", defaults=[(L("y"), None)]), Cfg("BD", "bool", prompt="bd", defaults=[(S("BB"), None)]),
+        Cfg("SB", "string", prompt="sb", defaults=[(L('"sb"'), None)]), Cfg("SD", "string", prompt="sd", defaults=[(S("SB"), None)]),
+        Cfg("HB", "hex", prompt="hb", defaults=[(L("0x10"), None)]), Cfg("HD", "hex", prompt="hd", defaults=[(S("HB"), None)]),
+        Cfg("FB", "float", prompt="fb", defaults=[(L("1.5"), None)]), Cfg("FD", "float", prompt="fd", defaults=[(S("FB"), None)]),
+    ]
+    yield ("symval_types_referring_last", Program(children=copy.deepcopy(pairs)))
+    yield ("symval_types_referring_first", Program(children=copy.deepcopy(pairs[1::2] + pairs[0::2])))
+
+
+SET_VALUES = {  # type: (default, value of `set`, value of `set default`, user value, changed default)
+    "string": ('"stock"', '"forced"', '"weak"', "mine", '"stock2"'),
+    "int": ("1", "2", "3", "4", "5"),
+    "hex": ("0x10", "0x20", "0x30", "0x40", "0x50"),
+    "float": ("1.5", "2.5", "3.5", "4.5", "5.5"),
+}
+
+
+def set_trees() -> Iterator[Tuple[str, Program]]:
+    # an option T of every non-bool type that is the target of `set T=v` of one switch (F) and of `set default T=w` of another
+    # (W), target defined before / after the switches
+    for typ, (d, v, w, _u, _d2) in SET_VALUES.items():
+        t = Cfg("T", typ, prompt="t", defaults=[(L(d), None)])
+        f = Cfg("F", "bool", prompt="f", sets=[("T", L(v), None)])
+        ws = Cfg("W", "bool", prompt="w", wsets=[("T", L(w), None)])
+        yield (f"set_{typ}_target_first", Program(children=copy.deepcopy([t, f, ws])))
+        yield (f"set_{typ}_target_last", Program(children=copy.deepcopy([f, ws, t])))
 
 
 def rev_tree() -> Tuple[str, Program]:
@@ -157,6 +223,16 @@ def changes(tree: str, p: Program) -> Iterator[Tuple[str, Program]]:
         q = copy.deepcopy(p); find(q, "W").defaults = [(L("6"), None)]; yield ("default_literal", q)
         q = copy.deepcopy(p); find(q, "T").defaults = [(L("y"), None)]; yield ("default_condition_source_changed", q)
         q = copy.deepcopy(p); find(q, "G").defaults = [(L("n"), None)]; find(q, "W").defaults = [(L("6"), None)]; yield ("upstream_and_own_default_changed", q)
+    elif tree.startswith("symval_types"):
+        q = copy.deepcopy(p)
+        for n_, v_ in (("BB", "n"), ("SB", '"sb2"'), ("HB", "0x20"), ("FB", "2.5")):
+            find(q, n_).defaults = [(L(v_), None)]
+        yield ("referent_default_literals", q)
+    elif tree.startswith("symval_"):
+        q = copy.deepcopy(p); find(q, "B").defaults = [(L("20"), None)]; yield ("referent_default_literal", q)
+        q = copy.deepcopy(p); find(q, "D").defaults = [(L("7"), None)]; yield ("symbol_default_replaced_by_literal", q)
+    elif tree.startswith("set_"):
+        q = copy.deepcopy(p); find(q, "T").defaults = [(L(SET_VALUES[find(p, "T").type][4]), None)]; yield ("target_default_literal", q)
     elif tree == "strname":
         q = copy.deepcopy(p); find(q, "T").defaults = [(L('"other"'), None)]; yield ("default_literal", q)
         q = copy.deepcopy(p); find(q, "U").defaults = [(L('"n"'), None)]; find(q, "W").defaults = [(L('"7"'), None)]; yield ("default_literals_tristate_number", q)
@@ -209,6 +285,17 @@ OPS = {
 }
 
 
+for _o in SYMVAL_ORDERS:
+    OPS["symval_" + _o] = [("set", "B", "30"), ("set", "D", "4"), ("set", "C", "5"), ("reset", "B"), ("reset", "D")]
+for _o in ("referring_last", "referring_first"):
+    OPS["symval_types_" + _o] = [("set", "BB", "n"), ("set", "SB", "su"), ("set", "HB", "0x30"), ("set", "FB", "3.5"), ("set", "SD", "x"), ("reset", "SB")]
+for _t, _v in SET_VALUES.items():
+    for _o in ("target_first", "target_last"):
+        OPS[f"set_{_t}_{_o}"] = [("set", "F", "y"), ("set", "F", "n"), ("set", "W", "y"), ("set", "W", "n"), ("set", "T", _v[3])]
+# set trees of the quick tier (the thorough tier has all of them)
+QUICK_SET_TREES = {"set_string_target_first", "set_string_target_last", "set_int_target_first", "set_int_target_last", "set_hex_target_first", "set_float_target_last"}
+
+
 # operations on options that exist only in the NEW tree of a change (edits after loading, and the configurations the FIRST
 # file of a load history is written in)
 EXTRA_OPS = {
@@ -225,11 +312,40 @@ def items(tier: str, seed: int):
     out = []
     d2 = 2 if tier == "quick" else 3
     for tname, told in base_trees():
+        if tier == "quick" and tname.startswith("set_") and tname not in QUICK_SET_TREES:
+            continue
         fo = kgen.render(told)
         for cname, tnew in changes(tname, told):
             for policy in ("sdkconfig", "kconfig"):
                 out.append({"tree": tname, "change": cname, "old": fo, "new_prog": tnew, "policy": policy, "d1": 2, "d2": d2})
     return out
+
+
+def observes_between(tree: str, change: str) -> bool:
+    """trees in which an option forces / proposes another option's value (`set`, `set default`): the edit sequences are
+    explored WITH observations (save / read everything) between the operations"""
+    return tree.startswith("set_") or change == "set_default_source_added"
+
+
+def between_masks(n: int, on: bool, thorough: bool) -> List[tuple]:
+    """what the live instance does BEFORE each of the n edits (i.e. after the load and after every edit but the last; the
+    final observation follows the last edit anyway): nothing (0), save the configuration (1), read every value (2).
+    n <= 2: every combination over {0, 1} (thorough: {0, 1, 2}); n = 3: the uniform ones."""
+    if not on or n == 0:
+        return [(0,) * n]
+    kinds = (0, 1, 2) if thorough else (0, 1)
+    if n <= 2:
+        return list(itertools.product(kinds, repeat=n))
+    return [(k_,) * n for k_ in kinds]
+
+
+def apply_edits(inst, E, mask) -> None:
+    for op, m in zip(E, mask):
+        if m == 1:
+            inst.config_text()
+        elif m == 2:
+            inst.values()
+        impl.apply_op(inst, op)
 
 
 def strip_marked(text: str) -> str:
@@ -302,7 +418,7 @@ def patched_tree(tnew: Program, f_unmarked: str, marked: List[Tuple[str, str]]) 
         inst.load_text(f_unmarked)
         k = inst.k
         progressed = False
-        for s in dependency_order(k):
+        for s in dependency_order(k, cur):
             name = s.name
             if s.choice is not None:
                 ch = s.choice
@@ -350,14 +466,51 @@ def patched_tree(tnew: Program, f_unmarked: str, marked: List[Tuple[str, str]]) 
     return cur, mism
 
 
-def dependency_order(k) -> list:
-    """defined symbols, those an option depends on first (ties in definition order) -- from the references in the tree"""
+def ast_refs(p: Program) -> Dict[str, set]:
+    """option name -> names of the options its definitions refer to: dependencies (own and inherited from enclosing menus /
+    ifs / choices), prompt conditions, default VALUES and conditions, range bounds and conditions -- read off the source
+    tree, independently of the library's own bookkeeping"""
+    out: Dict[str, set] = {}
+
+    def syms(*es) -> set:
+        res: set = set()
+        for e in es:
+            res.update(kgen.expr_syms(e))
+        return res
+
+    def rec(children, inh: set) -> None:
+        for n in children:
+            kind = getattr(n, "kind", None)
+            if kind == "cfg":
+                refs = set(inh) | syms(*n.depends, n.prompt_cond)
+                for v, cnd in n.defaults:
+                    refs |= syms(v, cnd)
+                for lo, hi, cnd in n.ranges:
+                    refs |= syms(lo, hi, cnd)
+                out.setdefault(n.name, set()).update(refs - {n.name})
+            elif kind == "choice":
+                rec(n.children, inh | syms(*n.depends, n.prompt_cond, *[cnd for _m, cnd in n.defaults]))
+            elif kind == "menu":
+                rec(n.children, inh | syms(*n.depends, *n.visible_if))
+            elif kind == "if":
+                rec(n.children, inh | syms(n.cond))
+            elif kind == "source" and n.children is not None:
+                rec(n.children, inh)
+
+    rec(p.children, set())
+    return out
+
+
+def dependency_order(k, prog: Optional[Program] = None) -> list:
+    """defined symbols, those an option depends on first (ties in definition order) -- from the references in the tree
+    (the source tree `prog` when given, united with the library's view of it)"""
     c = impl.core()
     syms = list(k.unique_defined_syms)
     pos = {s: i for i, s in enumerate(syms)}
+    refs = ast_refs(prog) if prog is not None else {}
     deps = {}
     for s in syms:
-        d = set()
+        d = {k.syms[n_] for n_ in refs.get(s.name, ()) if n_ in k.syms and k.syms[n_] in pos}
         for x in s.dependencies:
             if isinstance(x, c.Choice):
                 d.update(m for m in x.syms if m is not s)
@@ -398,6 +551,7 @@ def run_item(item) -> common.Result:
     files = reachable_files(fo, ops, item["d1"])
     refs: Dict[str, tuple] = {}
     label0 = f"[{tree}/{change} policy={policy}]"
+    between = observes_between(tree, change)
     for h0, f in files:
         fprime = strip_marked(f)
         marked = marked_entries(f)
@@ -416,21 +570,21 @@ def run_item(item) -> common.Result:
         nontrivial = bool(exp_mism)
         refs[f] = (ref_files, ref_policy)
         for n in range(item["d2"] + 1):
-            for E in itertools.product(eops, repeat=n):
+            for E, mask in itertools.product(itertools.product(eops, repeat=n), between_masks(n, between, item["d2"] > 2)):
                 r.states += 1
                 r.transitions += max(1, n)
                 r.evals += 1
-                case = dict(case0, edits=[list(o) for o in E])
+                case = dict(case0, edits=[list(o) for o in E], observed_before_edit=list(mask))
+                obs_note = f" (before each edit: {['-', 'save', 'read all'][max(mask)] if len(set(mask)) == 1 else [['-', 'save', 'read all'][m_] for m_ in mask]})" if any(mask) else ""
                 try:
                     a = impl.Inst(fn, policy=policy)
                     a.load_text(f)
                     rec = record_names(a.k)
                     user_after_load = {s.name: s._user_value for s in a.k.unique_defined_syms}
-                    for op in E:
-                        impl.apply_op(a, op)
+                    apply_edits(a, E, mask)
                     oa = (a.values(), {s.name: s.visibility for s in a.k.unique_defined_syms}, a.config_text())
                 except Exception as e:  # noqa: BLE001
-                    r.violation({"kind": "exception", "exc": type(e).__name__, "site": site_of(e), "change": change, "policy": policy}, f"{label0} file after {h0}, edits {E}: raised {type(e).__name__}: {e}", case)
+                    r.violation({"kind": "exception", "exc": type(e).__name__, "site": site_of(e), "change": change, "policy": policy}, f"{label0} file after {h0}, edits {E}{obs_note}: raised {type(e).__name__}: {e}", case)
                     continue
                 b = impl.Inst(ref_files, policy=ref_policy)
                 b.load_text(fprime)
@@ -439,11 +593,11 @@ def run_item(item) -> common.Result:
                 ob = (b.values(), {s.name: s.visibility for s in b.k.unique_defined_syms}, b.config_text())
                 if oa[0] != ob[0] or oa[1] != ob[1]:
                     diff = {k_: (oa[0][k_], ob[0].get(k_)) for k_ in oa[0] if oa[0][k_] != ob[0].get(k_)}
-                    r.violation({"kind": "marked_entries_pin_or_lose_values", "change": change, "policy": policy, "after_edits": n > 0, "types": sorted({impl.core().TYPE_TO_STR[a.k.syms[k_].orig_type] for k_ in diff})},
-                                f"{label0} file saved after {h0}, edits {E}: loading the file gives {diff} (left) vs the reference without marked entries (right)", case)
+                    r.violation({"kind": "marked_entries_pin_or_lose_values", "change": change, "policy": policy, "after_edits": n > 0, "types": sorted({impl.core().TYPE_TO_STR[a.k.syms[k_].orig_type] for k_ in diff}), **({"observed_between": True} if any(mask) else {})},
+                                f"{label0} file saved after {h0}, edits {E}{obs_note}: loading the file gives {diff} (left) vs the reference without marked entries (right)", case)
                 elif oa[2] != ob[2]:
-                    r.violation({"kind": "written_text_differs", "change": change, "policy": policy, "after_edits": n > 0},
-                                f"{label0} file saved after {h0}, edits {E}: same values but different sdkconfig text: {line_diff(oa[2], ob[2])}", case)
+                    r.violation({"kind": "written_text_differs", "change": change, "policy": policy, "after_edits": n > 0, **({"observed_between": True} if any(mask) else {})},
+                                f"{label0} file saved after {h0}, edits {E}{obs_note}: same values but different sdkconfig text: {line_diff(oa[2], ob[2])}", case)
                 if n == 0:
                     # unmarked entries are user values
                     for name, raw in unmarked_entries(f):
@@ -633,6 +787,6 @@ def replay(case) -> List[dict]:
                 continue
             item = {"tree": tname, "change": cname, "old": case["old"], "new_prog": tnew, "policy": case["policy"], "d1": 2, "d2": case["d2"]}
             r = run_item(item)
-            keys = ("file", "edits", "first_file", "merge_file", "merge_kw")
+            keys = ("file", "edits", "observed_before_edit", "first_file", "merge_file", "merge_kw")
             return [v for v in r.viols if all(v["case"].get(k_) == case.get(k_) for k_ in keys)] or r.viols
     raise SystemExit("replay: tree/change not found")
